@@ -56,19 +56,22 @@ FS_ROWS = [[k, v, (3 if (r[0] == "raise" and not issubclass(r[1], Exception)) el
 ALPHABET = ["/", "a", "b", "pre-", "-suf", "x", "%2f", "%2F", "%41", "?q", "%00", "\0", "A", ".", "%25", "%3f", "12"]
 
 # request_path shapes: (request_path, placeholder or None for the default "...", needs lookup)
-SHAPES_PLAIN = ["/", "/a", "/a/b", "/a/", "a", "", "//a", "/a//b"]
+SHAPES_PLAIN = ["/", "/a", "/a/b", "/a/", "a", "", "//a", "/a//b",
+                # configured paths are taken literally: '%', '?', '#', spaces, non-ASCII
+                "/dist/100%25", "/a%41", "/a b", "/a#b", "/a?b", "/\xe9", "/%zz", "/%"]
 SHAPES_LOOKUP = [
     ("/...", None), ("/a/...", None), ("/.../b", None), ("/a/pre-...-suf/b", None), ("/pre-...", None),
     ("/...-suf", None), ("/a/ab...ba", None), ("/a/....", None), ("/a/......", None), ("/.../...", None),
     ("/a", None), ("/", None), ("/a/x", "x"), ("/a/pre-x-suf", "x"), ("/a/xx", "x"), ("/a/...", ""),
     ("/a/b", "a/b"), ("/a/aab", "aa"), ("/a/aaa", "aa"), ("/.../", None), ("/a...a/a", None),
+    ("/cfg/%41-...", None), ("/100%25/...", None), ("/a b/...-%20", None), ("/\xe9/...", None), ("/a#?/%...", "%"),
 ]
 
 
 def mkcfg(rpath, filemode, key="", ph=None, cont=False, ign=0, template=True, tpre="", tsuf="", suffix="", chain=None):
     return {"rpath": rpath, "filemode": filemode, "target": "file.tpl" if filemode else "root", "suffix": suffix,
             "key": key, "ph": ph, "cont": cont, "ign": ign, "template": template, "tpre": tpre, "tsuf": tsuf,
-            "chain": chain}
+            "chain": chain, "loglevel": "DEBUG"}
 
 
 # transformation chains whose result is not a str (the data source and the template must get the value as it is)
@@ -108,6 +111,8 @@ def all_configs():
             for st in TYPED_SETTINGS:
                 for fm in (True, False):
                     out.append(mkcfg(rp, fm, ph=ph, **st))
+    for i, c in enumerate(out):
+        c["loglevel"] = ("DEBUG", "INFO", "WARNING")[i % 3]      # the logging level is a dimension
     return out
 
 
@@ -121,6 +126,13 @@ def base_requests(cfg):
               "02-03-04-05-06-0a", "02-03-04-05-06-0B", "2-3-4-5-6-c", "zz", "1"]
     extras = ["", "/a", "/b", "/bb/a", "//a", "/", "/a/", "?q", "/a?q", "/%41"]
     outs = []
+    enc = "".join({"%": "%25", " ": "%20", "#": "%23", "?": "%3f", "\xe9": "%c3%a9"}.get(ch, ch) for ch in rp)
+    if enc != rp:
+        # the request that spells the configured path: its specials percent-encoded (placeholder substituted below)
+        encph = "".join({"%": "%25"}.get(ch, ch) for ch in ph)
+        for v in ["a", "A", "%41", "x", ""]:
+            for e in ["", "/a", "?q"]:
+                outs.append((enc.replace(encph, v, 1) if cfg["key"] else enc) + e)
     if cfg["key"] and ph and ph in rp:
         for vi, v in enumerate(values):
             if (15 <= vi < 21 or vi >= 29) and not cfg.get("chain"):
@@ -258,6 +270,23 @@ class C06(Check):
                         if w not in seen:
                             seen.add(w)
                             yield {"tftp": tftp, "cfg": cfg, "uri": w}
+        # a sample through the real HttpServer / TftpServer in front of the handler
+        one = list(fileh.tokens_upto(ALPHABET, 1 if tier == "quick" else 2))
+        for cfg in (mkcfg("/a/...", True, key="k", cont=True), mkcfg("/a/pre-...-suf/b", False, key="k", cont=True, ign=1),
+                    mkcfg("/...", True, key=":system_id:"), mkcfg("/a/b", False), mkcfg("/", False),
+                    mkcfg("/cfg/%41-...", True, key="k"), mkcfg("/dist/100%25", False),
+                    mkcfg("/...", True, key="k", chain=[{"misc.to_int": {"raise_error_if_malformed": True}}], cont=True, ign=1)):
+            for tftp in (False, True):
+                seen = set()
+                for u in base_requests(cfg) + one + [cfg["rpath"] + t for t in one]:
+                    for w in ((u,) if not tftp else (u, u[1:])):
+                        if w and w not in seen and fileh.servable(tftp, w):
+                            seen.add(w)
+                            # a BaseException of the data source ends the TFTP transfer thread without a reply: the
+                            # client's wait (bounded, 3 s) is spent on one such request only
+                            if tftp and (any(t in w for t in ("ab", "ba", "/2")) or w == "2") and w != "/ba":
+                                continue
+                            yield {"tftp": tftp, "cfg": cfg, "uri": fileh.wire_to_handler(tftp, w), "wire": w, "via_server": True}
         cfgs = all_configs()
         n_all = 2 if tier == "quick" else 3
         if os.environ.get("C06_LIMIT_CFGS"):
@@ -266,9 +295,9 @@ class C06(Check):
         short2 = list(fileh.tokens_upto(ALPHABET, 2))
         short1 = list(fileh.tokens_upto(ALPHABET, 1))
         for ci, cfg in enumerate(cfgs):
-            # quick tier: every third configuration is driven through TFTP only (a TFTP case also runs the HTTP handler
+            # quick tier: two of three configurations are driven through TFTP only (a TFTP case also runs the HTTP handler
             # of the same configuration on the normalised name)
-            for tftp in ((True,) if (tier == "quick" and ci % 3 == 2) else (False, True)):
+            for tftp in ((True,) if (tier == "quick" and ci % 3 != 0) else (False, True)):
                 seen = set()
 
                 def emit(u):
@@ -276,7 +305,9 @@ class C06(Check):
                         return None
                     seen.add(u)
                     return {"tftp": tftp, "cfg": cfg, "uri": u}
-                for u in ((short if ci % 3 == 0 else short1) if tier == "quick" else (short if ci % 4 == 0 else short2)):
+                special = any(ch in cfg["rpath"] for ch in "%#? \xe9")     # the requests built from the configured path matter
+                for u in (short1 if (special and tier == "quick") else
+                          (short if ci % 3 == 0 else short1) if tier == "quick" else (short if ci % 4 == 0 else short2)):
                     c = emit(u)
                     if c:
                         yield c
@@ -320,6 +351,9 @@ class C06(Check):
     # ---- implementation
     def do_handle(self, h, tftp, uri, ctx, src, template):
         cls, body = fileh.run_handle(h, tftp, uri, ctx)
+        return self.parse_result(cls, body, src, template)
+
+    def parse_result(self, cls, body, src, template):
         tc = []
         if cls == fileh.CONTENT and template:
             try:
@@ -342,11 +376,19 @@ class C06(Check):
         dec = urllib.parse.unquote(uri.partition("?")[0])
         if h is None:
             return [False, [False, [], []], False, [], [], dec]
+        fileh.set_log_level(cfg.get("loglevel", "DEBUG"))
         src = RecordingSource(TABLE, ALL_RAISING, EMPTIES)
         h.set_data_source(src)
-        ctx = h.prepare_context(uri)
-        can = bool(h.can_handle(uri, ctx))
-        hres = [self.do_handle(h, tftp, uri, ctx, src, cfg["template"])] if can else []
+        if c.get("via_server"):
+            # the request travels through the real HttpServer / TftpServer; a recording front in the server's handler
+            # list notes the context the handler computed from what the server passed on
+            _seen, ctx, can, cls, body = fileh.via_server(h, tftp, c.get("wire", uri))
+            ctx = ctx if ctx is not None else {"matches": False}
+            hres = [self.parse_result(cls, body, src, cfg["template"])] if can else []
+        else:
+            ctx = h.prepare_context(uri)
+            can = bool(h.can_handle(uri, ctx))
+            hres = [self.do_handle(h, tftp, uri, ctx, src, cfg["template"])] if can else []
         par = []
         if tftp and hh is not None:
             # reference reading of "leading slash": decided on the decoded path with the library function
@@ -446,9 +488,19 @@ class C06(Check):
             return {"tftp": c["tftp"], "cfg": c["cfg"], "uri": "history of requests on one handler: " + "  ".join(c["hist"]),
                     "hist": c["hist"]}
         return {"tftp": c["tftp"], "cfg": c["cfg"], "uri": c["uri"].encode("latin-1").decode("latin-1"),
-                "uri_hex": c["uri"].encode("latin-1").hex()}
+                "uri_hex": c["uri"].encode("latin-1").hex(),
+                "via_server": ("through the real HttpServer / TftpServer, on the wire: %r" % c.get("wire")) if c.get("via_server") else None}
 
     def shrink(self, c):
+        if c.get("via_server"):
+            # shrink what goes over the wire; the handler-level string follows from it
+            for cand in self._shrink(dict(c, uri=c["wire"])):
+                if fileh.servable(cand["tftp"], cand["uri"]):
+                    yield dict(cand, wire=cand["uri"], uri=fileh.wire_to_handler(cand["tftp"], cand["uri"]))
+            return
+        yield from self._shrink(c)
+
+    def _shrink(self, c):
         if "hist" in c:
             for i in range(len(c["hist"])):
                 yield dict(c, hist=c["hist"][:i] + c["hist"][i + 1:])
